@@ -11,6 +11,8 @@ import (
 	"cuelabs.dev/go/oci/ociregistry"
 	"cuelabs.dev/go/oci/ociregistry/ociclient"
 	"cuelabs.dev/go/oci/ociregistry/ocidebug"
+	"cuelabs.dev/go/oci/ociregistry/ocifilter"
+	"cuelabs.dev/go/oci/ociregistry/ociunify"
 	"cuelabs.dev/go/oci/ociregistry/ocimem"
 	"cuelabs.dev/go/oci/ociregistry/ociserver"
 
@@ -110,19 +112,29 @@ func runHistory(env *core.Env, ctx context.Context, r ociregistry.Interface, m *
 // --- stacks ---
 
 type stackOpts struct {
-	Kind      string // mem | http1 | http2 | http1+debug
+	// Kind lists the layers from the backend outwards, joined by "+":
+	//   mem | unify | unifyc   base: one ocimem, or ociunify over two (sequential / concurrent reads)
+	//   rec                    recording / fault-injecting wrapper (reg.Wrap)
+	//   http1                  ociclient -> simnet -> ociserver hop
+	//   http2                  two such hops
+	//   debug | select | sub   ocidebug, ocifilter.Select(allow all), ocifilter.Sub(prefix)
+	Kind      string
 	Immutable bool
 	Server    ociserver.Options
 	PageSize  int
 	Plan      func(req *http.Request) simnet.Fault
 	OneByte   bool
 	EOFData   bool
+	Backend   *reg.FaultPlan
+	SubPrefix string
 }
 
 type stack struct {
 	Reg        ociregistry.Interface
 	Mem        *ocimem.Registry
+	Mem1       *ocimem.Registry // second member of a unified registry
 	Transports []*simnet.Transport
+	Tracker    *reg.Tracker
 	Desc       string
 }
 
@@ -149,13 +161,25 @@ func httpHop(env *core.Env, backend ociregistry.Interface, o *stackOpts, name st
 }
 
 func buildStack(env *core.Env, o *stackOpts) *stack {
-	s := &stack{Mem: newMem(o.Immutable), Desc: o.Kind}
+	s := &stack{Mem: newMem(o.Immutable), Desc: o.Kind, Tracker: reg.NewTracker()}
 	var r ociregistry.Interface = s.Mem
-	for _, part := range strings.Split(o.Kind, "+") {
+	for i, part := range strings.Split(o.Kind, "+") {
 		switch part {
 		case "mem":
+		case "unify", "unifyc":
+			if i != 0 {
+				core.Harnessf("unify must be the base layer")
+			}
+			s.Mem1 = newMem(o.Immutable)
+			pol := ociunify.ReadSequential
+			if part == "unifyc" {
+				pol = ociunify.ReadConcurrent
+			}
+			r = ociunify.New(s.Mem, s.Mem1, &ociunify.Options{ReadPolicy: pol})
+		case "rec":
+			r = reg.Wrap(r, s.Tracker, o.Backend)
 		case "http1":
-			c, tr := httpHop(env, r, o, "hop1")
+			c, tr := httpHop(env, r, o, fmt.Sprintf("hop%d", len(s.Transports)+1))
 			r = c
 			s.Transports = append(s.Transports, tr)
 		case "http2":
@@ -166,6 +190,14 @@ func buildStack(env *core.Env, o *stackOpts) *stack {
 			r = c2
 		case "debug":
 			r = ocidebug.New(r, func(string, ...any) {})
+		case "select":
+			r = ocifilter.Select(r, func(string) bool { return true })
+		case "sub":
+			p := o.SubPrefix
+			if p == "" {
+				p = "pre/fix"
+			}
+			r = ocifilter.Sub(r, p)
 		default:
 			core.Harnessf("unknown stack part %q", part)
 		}
@@ -175,3 +207,7 @@ func buildStack(env *core.Env, o *stackOpts) *stack {
 }
 
 var _ = io.EOF
+
+func newClient(tr http.RoundTripper, pageSize int) (ociregistry.Interface, error) {
+	return ociclient.New("sim.example", &ociclient.Options{Transport: tr, Insecure: true, ListPageSize: pageSize})
+}
